@@ -24,7 +24,7 @@ import time
 ROOT = os.path.dirname(os.path.abspath(__file__))
 COQ = os.path.join(ROOT, "coq")
 HARNESS = os.path.join(ROOT, "harness")
-REPO = "/repo"
+REPO = os.environ.get("VERIF_REPO", "/repo")   # the sandbox for seeded changes points this elsewhere
 RUN = os.path.join(ROOT, "run")
 FORBIDDEN = re.compile(
     r"\b(Admitted|admit|Axiom|Axioms|Parameter|Parameters|Conjecture|Conjectures)\b"
@@ -496,6 +496,13 @@ def run_check(pid, cfg, tier, seed, rundir, t0, replay):
 
     # ---- 3. correspondence, decided in Coq
     verdicts = judge(cfg, cases, rundir)
+    # A case the decoder rejects although the harness produced it is a renderer/decoder bug - EXCEPT
+    # when the implementation itself failed in a way the decoder has no shape for: an unexpected
+    # panic / hang / abort of the real code is an observed outcome, not an infrastructure problem;
+    # it counts as a disagreement and a failed property instance (the replay is that input).
+    GENERIC_FAIL = (["panic"], ["hang"], ["abort"])
+    verdicts = [(False, False, False, False) if (v[3] and c["out"] in GENERIC_FAIL) else v
+                for c, v in zip(cases, verdicts)]
     malformed = [c for c, v in zip(cases, verdicts) if v[3]]
     if malformed:
         raise Infra("the Coq decoder rejected %d case(s) as malformed, e.g. %s"
